@@ -33,6 +33,7 @@ def parse_functions(src):
     out = []
     for m in re.finditer(r"(?:pub )?fn (\w+)\s*\(([^)]*)\)\s*->\s*([^{]+?)\s*\{", src):
         params = []
+        if "self" in m.group(2): continue                      # methods are handled separately
         for p in [x.strip() for x in m.group(2).split(",") if x.strip()]:
             n, ty = p.split(":", 1); params.append((n.strip(), ty.strip()))
         out.append((m.group(1), params, m.group(3).strip()))
@@ -174,6 +175,26 @@ def main():
             calls_rs.append('    run("%s", || %s(%s).show());' % (tag, fname, ", ".join(rust_lit(v, ty) for v, (_, ty) in zip(vals, params))))
             cases.append((tag, fname, ret, "(tr_st_%s %s%s)" % (fname, "1000%nat " if uses_fuel else "", " ".join(coq_lit(v) for v in vals))))
     for f, e in refused: print("translator-selftest: %s refused as required: %s" % (f, e))
+    # ---- methods of `St` (fields state: [u8; 8], i: u8, j: u8)
+    fields = [("state", ("arr", "u8")), ("i", "u8"), ("j", "u8")]
+    for m in re.finditer(r"pub fn (m_\w+)\s*\(\s*&mut self\s*,([^)]*)\)\s*->\s*(\w+)\s*\{", src):
+        fname, ptxt, ret = m.group(1), m.group(2), m.group(3)
+        params = []
+        for p in [x.strip() for x in ptxt.split(",") if x.strip()]:
+            n, ty = p.split(":", 1); params.append((n.strip(), ty.strip()))
+        t = dict(name="st_" + fname, file="tools/selftest/snippets.rs", fn=fname, kind="method", fields=fields, helpers=["s_i"], ret=ret)
+        try:
+            txt = es.method(t, src)
+        except Untranslatable as e:
+            failed_tr.append((fname, str(e))); continue
+        defs.append(txt)
+        for i in range(CASES):
+            st = gen_value("state", "[u8; 8]", rnd, fname); fi = gen_value("i", "u8", rnd, fname); fj = gen_value("j", "u8", rnd, fname)
+            vals = [gen_value(n, ty, rnd, fname) for n, ty in params]
+            tag = "%s#%d" % (fname, i)
+            calls_rs.append('    run("%s", || { let mut s = St { state: %s, i: %s, j: %s }; let r = s.%s(%s); (((s.state, s.i), s.j), r).show() });'
+                            % (tag, rust_lit(st, "[u8; 8]"), rust_lit(fi, "u8"), rust_lit(fj, "u8"), fname, ", ".join(rust_lit(v, ty) for v, (_, ty) in zip(vals, params))))
+            cases.append((tag, fname, "((([u8; 8], u8), u8), %s)" % ret, "(tr_st_%s %s %s %s %s)" % (fname, coq_lit(st), coq_lit(fi), coq_lit(fj), " ".join(coq_lit(v) for v in vals))))
     if not_refused:
         line = "translator-selftest: the translator ACCEPTED %s, which it must refuse (aliasing it does not model)" % ", ".join(not_refused)
         json.dump({"key": key, "ok": False, "line": line}, open(CACHE, "w")); print(line); return 1
